@@ -241,6 +241,14 @@ class Extraction:
                 rec["dropped_doc_lines"] += 1
                 i += 1
                 continue
+            if s.startswith("#[cfg_attr(") and not s.endswith("]"):
+                # multi-line cfg_attr (derives / serde attributes under a feature): drop the whole attribute
+                j = i
+                while j < len(lines) and not lines[j].strip().endswith(")]"):
+                    j += 1
+                rec["dropped_attrs"].append(" ".join(l.strip() for l in lines[i:j + 1]))
+                i = j + 1
+                continue
             if s.startswith("#["):
                 m = re.fullmatch(r"#\[cfg\((.*)\)\]", s)
                 if m:
@@ -348,7 +356,7 @@ class Extraction:
         return t
 
     def extract_fn(self, file, path, contract_lines, ret=None, trait=None, external_body=False,
-                   loop_specs=None, loop_iters=None, ghost=None):
+                   loop_specs=None, loop_iters=None, ghost=None, nobody=False, rlimit=None):
         s = self.src(file)
         a, st, body_open, end = s.find_fn(path, trait, self.features)
         raw = s.text[a:end]
@@ -371,8 +379,19 @@ class Extraction:
             body_c = splice_proof_text(body_c, loop_specs or {}, loop_iters or {}, ghost or [], path, rec)
         attrs = pre.strip("\n")
         ext = "    #[verifier::external_body]\n" if external_body else ""
+        if rlimit:
+            # verifier-only attribute: a larger resource limit for this function's queries
+            ext += "    #[verifier::rlimit(%d)]\n" % int(rlimit)
+            rec["verifier_rlimit"] = int(rlimit)
         if external_body:
             rec["external_body"] = True
+        if nobody:
+            if not external_body:
+                raise Undecided("extraction: `nobody` is only allowed together with external_body (fn %s)" % path)
+            # the body of an assumed (external_body) function is not verified; it is dropped so that the items it
+            # mentions need not be extracted. Only the signature and the assumed contract remain.
+            body_c = "{ unimplemented!() }"
+            rec["body_dropped_assumed_contract_only"] = True
         text = ((attrs + "\n") if attrs.strip() else "") + ext + "    " + sig_c.strip() + "\n" + contract + "\n    " + body_c.strip() + "\n"
         rec["contract_lines"] = len(contract_lines)
         rec["body_verbatim"] = (body_c == re.sub(r"\bpub\((?:crate|super|in [a-z:]+)\)", "pub", body)) or \
@@ -572,7 +591,8 @@ def generate(template_path, out_path, features=None):
             loop_iters = {int(k[4:]): v for k, v in args.items() if re.fullmatch(r"iter\d+", k)}
             out.append(ex.extract_fn(file, name, contract, ret=args.get("ret"), trait=args.get("trait"),
                                      external_body=bool(args.get("external_body")),
-                                     loop_specs=loop_specs, loop_iters=loop_iters, ghost=ghost))
+                                     loop_specs=loop_specs, loop_iters=loop_iters, ghost=ghost,
+                                     nobody=bool(args.get("nobody")), rlimit=args.get("rlimit")))
         else:
             raise Undecided("unknown extract kind %r" % item)
     text = "\n".join(out)
